@@ -193,8 +193,31 @@ impl Gen {
         occ[r5 * 8 + mf] = Some((side, Piece::Pawn));
         if rng.chance(1, 4) { let of = if mf > ef { ef.wrapping_sub(1) } else { ef + 1 }; if of < 8 && occ[r5 * 8 + of].is_none() { occ[r5 * 8 + of] = Some((side, Piece::Pawn)); } }
         let ep = (if side == Color::White { 5 * 8 + ef } else { 2 * 8 + ef }) as u8;
-        // kings: mine often on the 5th rank (rank pin) or anywhere
-        let mk = if rng.chance(1, 3) { r5 * 8 + rng.below(8) as usize } else { rng.below(64) as usize };
+        // kings: mine often on the 5th rank (rank pin), or on a line through my pawn with an enemy slider on the other side of
+        // the pawn (file pin, either diagonal — one of the diagonals passes through the en-passant square, so the capture stays
+        // on the pin line and is LEGAL), or anywhere
+        let mut line: Vec<usize> = vec![];
+        let mk = if rng.chance(2, 5) {
+            let dirs: [(i32, i32); 8] = [(1, 0), (-1, 0), (0, 1), (0, -1), (1, 1), (1, -1), (-1, 1), (-1, -1)];
+            let fwd: i32 = if side == Color::White { 1 } else { -1 };
+            // prefer the diagonal through the en-passant square
+            let (dr, df) = if rng.chance(1, 2) { (fwd, ef as i32 - mf as i32) } else { *rng.pick(&dirs) };
+            let (pr, pf) = (r5 as i32, mf as i32);
+            let i = 1 + rng.below(3) as i32;
+            let j = 1 + rng.below(4) as i32;
+            let on = |r: i32, f: i32| r >= 0 && r < 8 && f >= 0 && f < 8;
+            let (kr, kf) = (pr - i * dr, pf - i * df);
+            let (sr, sf) = (pr + j * dr, pf + j * df);
+            if !on(kr, kf) || !on(sr, sf) { return None; }
+            for t in 1..i { line.push(((pr - t * dr) * 8 + pf - t * df) as usize); }
+            for t in 1..j { line.push(((pr + t * dr) * 8 + pf + t * df) as usize); }
+            if line.iter().any(|&q| occ[q].is_some()) { return None; }
+            let ss = (sr * 8 + sf) as usize;
+            if occ[ss].is_some() { return None; }
+            let slider = if rng.chance(1, 3) { Piece::Queen } else if dr != 0 && df != 0 { Piece::Bishop } else { Piece::Rook };
+            occ[ss] = Some((opp, slider));
+            (kr * 8 + kf) as usize
+        } else if rng.chance(1, 2) { r5 * 8 + rng.below(8) as usize } else { rng.below(64) as usize };
         if occ[mk].is_some() { return None; }
         occ[mk] = Some((side, Piece::King));
         let mut ok = rng.below(64) as usize;
@@ -209,6 +232,7 @@ impl Gen {
             if p == Piece::Pawn && (s / 8 == 0 || s / 8 == 7) { continue; }
             // keep the squares behind the double-pushed pawn empty (it has just passed them)
             if s as u8 == ep || s == (if side == Color::White { 6 * 8 + ef } else { 8 + ef }) { continue; }
+            if line.contains(&s) { continue; }
             occ[s] = Some((if rng.chance(1, 2) { side } else { opp }, p));
         }
         let mut pcs = [0u64; 6];
